@@ -1210,6 +1210,164 @@ def rule_r11(prog, res):
     res.floor('R11', 'URL-path fallbacks', k, 1)
 
 
+def rule_r12(prog, res):
+    res.rule('R12', 'the in-message is the argument type itself exactly for '
+             'the body styles whose descriptor is BODY_STYLE_BARE (the key a '
+             'method is registered under comes from that message); each '
+             'descriptor of a request gets a context of its own or its '
+             'function follows the descriptor')
+    from ..constfold import try_fold
+    d = prog.module('spyne.decorator')
+    vb = d.functions.get('_validate_body_style')
+    pi = d.functions.get('_produce_input_message')
+    ex = d.functions.get('rpc.explain.explain_method')
+    if vb is None or pi is None or ex is None:
+        raise AnalysisError('spyne.decorator body style functions',
+                            'not found')
+    styles = None
+    for c_ in walk_no_defs(vb.node):
+        if isinstance(c_, ast.Compare) and isinstance(
+                c_.ops[0], (ast.In, ast.NotIn)) and isinstance(
+                c_.left, ast.Name) and 'body_style' in c_.left.id:
+            src_ = c_.comparators[0]
+            if isinstance(src_, ast.Name):
+                loc = [a.value for a in walk_no_defs(vb.node)
+                       if isinstance(a, ast.Assign) and any(
+                           isinstance(t, ast.Name) and t.id == src_.id
+                           for t in a.targets)]
+                if len(loc) == 1:
+                    src_ = loc[0]
+            known, v = try_fold(prog, d, src_)
+            if known and v and all(isinstance(x, str) for x in v):
+                styles = list(v)
+    if not styles:
+        raise AnalysisError('_validate_body_style', 'allowed styles not found')
+
+    def when(node, fn, var):
+        """styles for which ``node`` is reached, None when undecidable"""
+        out = set()
+        conds = [(e, pol) for e, pol in flatten_guards(guards_at(
+            node, stop=fn.node)) if var in {
+                y.id for y in ast.walk(e) if isinstance(y, ast.Name)}]
+        if not conds:
+            return None
+        for st in styles:
+            ok = True
+            for e, pol in conds:
+                known, v = try_fold(prog, d, e, {var: st})
+                if not known:
+                    return None
+                if bool(v) != pol:
+                    ok = False
+            if ok:
+                out.add(st)
+        return out
+    params = [a.arg for a in pi.node.args.args]
+    var_in = next((p_ for p_ in params if 'body_style' in p_), None)
+    shape = [a for a in walk_no_defs(pi.node) if isinstance(a, ast.Assign) and
+             isinstance(a.targets[0], (ast.Tuple, ast.List)) and
+             unparse(a.value).endswith('in_params.values()')]
+    consts = [a for a in walk_no_defs(ex.node) if isinstance(a, ast.Assign)
+              and unparse(a.value) == 'BODY_STYLE_BARE']
+    # ... or a table from the style string to the constant
+    table = None
+    for a in walk_no_defs(ex.node):
+        if isinstance(a, ast.Assign) and any(
+                unparse(t) == 'body_style' for t in a.targets) and \
+                isinstance(a.value, ast.Subscript) and isinstance(
+                    a.value.value, ast.Name) and \
+                unparse(a.value.slice) == 'body_style_str':
+            for top in d.tree.body:
+                if isinstance(top, ast.Assign) and any(
+                        isinstance(t, ast.Name) and t.id == a.value.value.id
+                        for t in top.targets) and isinstance(
+                        top.value, ast.Dict):
+                    table = {k.value: unparse(v) for k, v in zip(
+                        top.value.keys, top.value.values)
+                        if isinstance(k, ast.Constant)}
+    res.floor('R12', 'bare in-message shapes', len(shape), 1)
+    if var_in is not None:
+        s_shape = set()
+        s_const = set()
+        und = False
+        for a in shape:
+            w_ = when(a, pi, var_in)
+            und = und or w_ is None
+            s_shape |= (w_ or set())
+        for a in consts:
+            w_ = when(a, ex, 'body_style_str')
+            und = und or w_ is None
+            s_const |= (w_ or set())
+        if table is not None:
+            s_const |= {k_ for k_, v_ in table.items()
+                        if v_ == 'BODY_STYLE_BARE'}
+        elif not consts:
+            und = True
+        where = '%s:%d' % (d.relpath, shape[0].lineno)
+        if und:
+            res.unclass('R12', where, 'body style conditions not decidable')
+        else:
+            ok = s_shape == s_const
+            res.ob('R12', where, 'the in-message is the argument type for '
+                   'styles %s; the descriptor is BODY_STYLE_BARE for %s' % (
+                       sorted(s_shape), sorted(s_const)),
+                   'ok' if ok else 'VIOLATED')
+            if not ok:
+                res.finding('R12', '_produce_input_message|bare-shape-for|%s'
+                            % ','.join(sorted(s_shape)), where, 'the '
+                            'in-message is the (renamed) argument type for '
+                            'the styles %s but the descriptor is '
+                            'BODY_STYLE_BARE only for %s: for the others the '
+                            'method name is taken from in_message.'
+                            'get_type_name(), i.e. the TYPE name of the '
+                            'argument - a request naming the method is not '
+                            'found and one naming the type runs it' % (
+                                sorted(s_shape), sorted(s_const)))
+    # contexts
+    mc = prog.cls('spyne.context:MethodContext')
+    sd = mc.methods.get('set_descriptor')
+    pm = prog.cls('spyne.protocol._base:ProtocolMixin')
+    gm = pm.methods.get('generate_method_contexts')
+    if sd is None or gm is None:
+        raise AnalysisError('set_descriptor / generate_method_contexts',
+                            'not found')
+    fa = [a for a in walk_no_defs(sd.node) if isinstance(a, ast.Assign) and
+          unparse(a.targets[0]) == 'self.function']
+    res.floor('R12', 'function stores in set_descriptor', len(fa), 1)
+    uncond = any(not flatten_guards(guards_at(a, stop=sd.node)) for a in fa)
+    fresh = True
+    k = 0
+    for a in walk_no_defs(gm.node):
+        if isinstance(a, ast.Assign) and isinstance(
+                a.targets[0], ast.Attribute) and \
+                a.targets[0].attr == 'descriptor' and isinstance(
+                    a.targets[0].value, ast.Name):
+            k += 1
+            nm = a.targets[0].value.id
+            vals = [x.value for x in walk_no_defs(gm.node)
+                    if isinstance(x, ast.Assign) and any(
+                        isinstance(t, ast.Name) and t.id == nm
+                        for t in x.targets)]
+            if not vals or not all(isinstance(v, ast.Call) and
+                                   call_name(v) == 'copy' for v in vals):
+                fresh = False
+    res.floor('R12', 'descriptor stores in generate_method_contexts', k, 1)
+    ok = uncond or fresh
+    res.ob('R12', sd.where, 'set_descriptor replaces the function %s; '
+           'generate_method_contexts gives each descriptor %s' % (
+               'always' if uncond else 'only when none is set',
+               'a copy of the context' if fresh else 'a shared context for '
+               'some'), 'ok' if ok else 'VIOLATED')
+    if not ok:
+        res.finding('R12', 'MethodContext.set_descriptor|function-kept-across-'
+                    'descriptors', sd.where, 'the contexts of a request are '
+                    'copies of one that already carries the primary function '
+                    'and set_descriptor keeps a function that is set: every '
+                    'auxiliary context runs the primary function, which '
+                    'therefore runs once per handler while the auxiliary '
+                    'functions never run')
+
+
 def run(prog, res, tier):
     res.run_rule(rule_r1, prog, res, tier)
     res.run_rule(rule_r2, prog, res)
@@ -1222,6 +1380,7 @@ def run(prog, res, tier):
     res.run_rule(rule_r9, prog, res)
     res.run_rule(rule_r10, prog, res)
     res.run_rule(rule_r11, prog, res)
+    res.run_rule(rule_r12, prog, res)
 
 
 _P = 'spyne/protocol/_base.py'
@@ -1232,6 +1391,33 @@ _W = 'spyne/server/wsgi.py'
 _X = 'spyne/protocol/xml.py'
 
 MUTANTS = [
+    Mutant('in-message-bare-for-out-bare', 'R12', 'fire', 'spyne/decorator.py',
+           in_func('_produce_input_message',
+                   "    if body_style_str == 'bare':\n",
+                   "    if body_style_str.endswith('bare'):\n"),
+           'bare-shape-for'),
+    Mutant('in-message-bare-by-membership', 'R12', 'twin',
+           'spyne/decorator.py',
+           in_func('_produce_input_message',
+                   "    if body_style_str == 'bare':\n",
+                   "    if body_style_str in ('bare',):\n"), None),
+    Mutant('function-kept-and-context-shared', 'R12', 'fire',
+           'spyne/context.py',
+           in_func('MethodContext.set_descriptor',
+                   "        self.function = descriptor.function",
+                   "        if self.function is None:\n"
+                   "            self.function = descriptor.function"),
+           'function-kept-across-descriptors',
+           also=[('spyne/protocol/_base.py',
+                  in_func('ProtocolMixin.generate_method_contexts',
+                          "            c = ctx.copy()\n",
+                          "            c = ctx if len(retval) == 0 else "
+                          "ctx.copy()\n"))]),
+    Mutant('function-kept-contexts-copied', 'R12', 'twin', 'spyne/context.py',
+           in_func('MethodContext.set_descriptor',
+                   "        self.function = descriptor.function",
+                   "        if self.function is None:\n"
+                   "            self.function = descriptor.function"), None),
     Mutant('full-placeholder-crosses-slashes', 'R11', 'fire',
            'spyne/protocol/http.py',
            in_func('HttpPattern._compile_url_pattern',
